@@ -357,7 +357,7 @@ Proof. unfold in_range. intros H. lia. Qed.
 
 Theorem pstep_keeps s o : PInv s -> fresh_invoice s o -> PInv (fst (pstep s o)).
 Proof.
-  intros HI Hf. destruct o as [h a|ch c ok|ch c ok|ch|hf|]; cbn [Payments.pstep fresh_invoice] in *.
+  intros HI Hf. destruct o as [h a|ch c ok|ch c ok|ch|hf| |]; cbn [Payments.pstep fresh_invoice] in *.
   - destruct (inv s h) as [a0|] eqn:Ei; cbn [fst]; [exact HI|].
     destruct HI as [Hs Hp Hk]. specialize (Hf eq_refl). constructor.
     + exact Hs.
@@ -384,6 +384,12 @@ Proof.
     apply negb_false_iff in E1, E2.
     apply update_keeps; try assumption; [apply in_range_lt; exact E1 | |]; intros h; reflexivity.
   - cbn [fst]. exact HI.
+  - (* heartbeat: only records without approval are dropped *)
+    cbn [fst]. destruct HI as [Hs Hp Hk]. constructor.
+    + exact Hs.
+    + exact Hp.
+    + intros h a Ha. cbn [inv known] in *. rewrite (Hk h a Ha).
+      unfold prunable. rewrite Ha. reflexivity.
   - cbn [fst]. apply restore_keeps. exact HI.
 Qed.
 
